@@ -68,7 +68,7 @@ Definition C16_verilog_str_agrees_full_statement : Prop :=
       | None => res_opt (infer (RInt (if neg then - num else num)) (Some w) false)
       end.
 
-(* It is FALSE of the code in two places (each is reported by the search as a spec violation): *)
+(* It is FALSE of the code in one place (reported by the search as a spec violation, kept as a known finding): *)
 (* F13: "-4'd8" is rejected although Const(-8, bitwidth=4) is accepted *)
 Theorem C16_verilog_str_most_negative_refuted :
   exists s neg num w,
@@ -85,24 +85,22 @@ Theorem C16_verilog_str_zero_width_rejected : forall s neg num w passed,
 Proof. exact verilog_str_zero_width. Qed.
 Print Assumptions C16_verilog_str_zero_width_rejected.
 
-(* bitwidth=0 passed along with "4'd3" is ignored instead of being rejected *)
-Theorem C16_verilog_str_bitwidth_param_zero_refuted :
-  infer (RStr [52; 39; 100; 51]) (Some 0) false = Ok (3, 4).
-Proof. vm_compute. reflexivity. Qed.
-Print Assumptions C16_verilog_str_bitwidth_param_zero_refuted.
-
-(* Outside exactly those inputs the agreement holds for every string, width and value: *)
+(* Outside exactly that input (the most negative value of the written width) the full statement
+   holds for every string, width, value and bitwidth parameter: *)
 Theorem C16_verilog_str_agrees_partial : forall s neg num w passed,
-  verilog_parse s = Ok (neg, w, num) -> 0 <= num -> 1 <= w ->
-  passed = None \/ passed = Some w ->
-  ~ (neg = true /\ num = 2 ^ (w - 1)) ->
+  verilog_parse s = Ok (neg, w, num) -> 0 <= num ->
+  ~ (neg = true /\ 1 <= w /\ num = 2 ^ (w - 1)) ->
   res_opt (infer (RStr s) passed false)
-  = res_opt (infer (RInt (if neg then - num else num)) (Some w) false).
-Proof. exact verilog_str_agrees. Qed.
+  = match passed with
+    | Some p => if p =? w then res_opt (infer (RInt (if neg then - num else num)) (Some w) false) else None
+    | None => res_opt (infer (RInt (if neg then - num else num)) (Some w) false)
+    end.
+Proof. exact verilog_str_agrees_all. Qed.
 Print Assumptions C16_verilog_str_agrees_partial.
 
+(* (repaired in /repo during this work: a bitwidth parameter of 0 used to be treated as "not given") *)
 Theorem C16_verilog_str_width_mismatch_rejected : forall s neg num w p,
-  verilog_parse s = Ok (neg, w, num) -> p <> 0 -> p <> w ->
+  verilog_parse s = Ok (neg, w, num) -> p <> w ->
   is_ok (infer (RStr s) (Some p) false) = false.
 Proof. exact verilog_str_width_mismatch. Qed.
 Print Assumptions C16_verilog_str_width_mismatch_rejected.
